@@ -228,40 +228,48 @@ func (t *twin) classifyMissing(f *qgen.Filter, missing []map[string]any, shapeOn
 			return "index/array-field-null-or-empty/document-has-no-index-entry"
 		}
 	}
-	for _, l := range leaves {
-		lf := l.Leaf
-		if !idx[lf.Field] || l.Negated() {
-			continue
-		}
-		switch {
-		// JSON index: a condition on the root value (no path) is encoded as a plain scalar, never as JSON
-		case isJSONLeaf(lf) && len(lf.Path) == 0 && lf.ArrOp == "":
-			return "index/json-root-value-condition/rows-missing-or-error"
-		// JSON index: an empty array under the path has no entry; _all matches it vacuously on a scan
-		case isJSONLeaf(lf) && lf.ArrOp == "_all" && allMissing(func(r map[string]any) bool {
-			v, ok := jsonAt(r["j"], lf.Path)
-			return ok && isNullOrEmptyList(v)
-		}):
-			return "index/json-empty-array/_all-match-missing"
-		// JSON index: a document without the filtered path has no entry for it, the scan path reads
-		// the absent path as null (matches _eq null, _ne x, _nin, ...)
-		case isJSONLeaf(lf) && len(lf.Path) > 0 && !(len(shapeOnly) > 0 && shapeOnly[0]) && allMissing(func(r map[string]any) bool {
-			_, ok := jsonAt(r["j"], lf.Path)
-			return !ok
-		}):
-			return "index/json-path-absent-in-document/scan-reads-null-index-has-no-entry"
-		// _nlike / _nilike: the rows whose value is null are lost
-		case (lf.Cmp == "_nlike" || lf.Cmp == "_nilike") && lf.ArrOp == "" && !l.EffOr && !isJSONLeaf(lf) && !t.orOverIndexed(f) && allMissing(func(r map[string]any) bool { return r[lf.Field] == nil }):
-			return "index/_nlike-on-indexed-string/null-row-missing"
-		case (lf.Cmp == "_nlike" || lf.Cmp == "_nilike") && lf.ArrOp == "" && !l.EffOr && isJSONLeaf(lf) && allMissing(func(r map[string]any) bool {
-			v, _ := jsonAt(r["j"], lf.Path)
-			return v == nil
-		}):
-			return "index/_nlike-on-indexed-json-string/null-row-missing"
-		// unique index: _in with a null in the list looks the null up as a full key; null entries
-		// carry the docID in the key and are never found
-		case lf.Cmp == "_in" && !l.EffOr && !t.orOverIndexed(f) && t.uniqueFirstFields()[lf.Field] && listHasNull(lf.Val) && allMissing(func(r map[string]any) bool { return r[lf.Field] == nil }):
-			return "index/unique/_in-containing-null/null-rows-missing"
+	// two passes: the JSON rules are tried on every leaf before the rules of the string / unique
+	// _in defects (which have been repaired: a residual difference must not be pinned on them just
+	// because their leaf comes first in the filter)
+	for pass := 0; pass < 2; pass++ {
+		for _, l := range leaves {
+			lf := l.Leaf
+			if !idx[lf.Field] || l.Negated() {
+				continue
+			}
+			if (pass == 0) != isJSONLeaf(lf) {
+				continue
+			}
+			switch {
+			// JSON index: a condition on the root value (no path) is encoded as a plain scalar, never as JSON
+			case isJSONLeaf(lf) && len(lf.Path) == 0 && lf.ArrOp == "":
+				return "index/json-root-value-condition/rows-missing-or-error"
+			// JSON index: an empty array under the path has no entry; _all matches it vacuously on a scan
+			case isJSONLeaf(lf) && lf.ArrOp == "_all" && allMissing(func(r map[string]any) bool {
+				v, ok := jsonAt(r["j"], lf.Path)
+				return ok && isNullOrEmptyList(v)
+			}):
+				return "index/json-empty-array/_all-match-missing"
+			// JSON index: a document without the filtered path has no entry for it, the scan path reads
+			// the absent path as null (matches _eq null, _ne x, _nin, ...)
+			case isJSONLeaf(lf) && len(lf.Path) > 0 && !(len(shapeOnly) > 0 && shapeOnly[0]) && allMissing(func(r map[string]any) bool {
+				_, ok := jsonAt(r["j"], lf.Path)
+				return !ok
+			}):
+				return "index/json-path-absent-in-document/scan-reads-null-index-has-no-entry"
+			// _nlike / _nilike: the rows whose value is null are lost
+			case (lf.Cmp == "_nlike" || lf.Cmp == "_nilike") && lf.ArrOp == "" && !l.EffOr && !isJSONLeaf(lf) && !t.orOverIndexed(f) && allMissing(func(r map[string]any) bool { return r[lf.Field] == nil }):
+				return "index/_nlike-on-indexed-string/null-row-missing"
+			case (lf.Cmp == "_nlike" || lf.Cmp == "_nilike") && lf.ArrOp == "" && !l.EffOr && isJSONLeaf(lf) && allMissing(func(r map[string]any) bool {
+				v, _ := jsonAt(r["j"], lf.Path)
+				return v == nil
+			}):
+				return "index/_nlike-on-indexed-json-string/null-row-missing"
+			// unique index: _in with a null in the list looks the null up as a full key; null entries
+			// carry the docID in the key and are never found
+			case lf.Cmp == "_in" && !l.EffOr && !t.orOverIndexed(f) && t.uniqueFirstFields()[lf.Field] && listHasNull(lf.Val) && allMissing(func(r map[string]any) bool { return r[lf.Field] == nil }):
+				return "index/unique/_in-containing-null/null-rows-missing"
+			}
 		}
 	}
 	// an indexed field constrained inside an _or: only one disjunct is fetched
